@@ -133,6 +133,14 @@ func Generate(profile string, seed uint64, tier string) (*Scenario, error) {
 		if g.P(0.3) {
 			sc.Ops = append(sc.Ops, Op{K: "foreignBackup"}, Op{K: "restoreCheck"})
 		}
+		if g.P(0.3) {
+			// the location is taken over by another store while this hub keeps running (or restarts)
+			sc.Ops = append(sc.Ops, Op{K: "takeover"})
+			if g.P(0.3) {
+				sc.Ops = append(sc.Ops, Op{K: "restart"})
+			}
+			sc.Ops = append(sc.Ops, Op{K: "backup"})
+		}
 	case "C19c":
 		sc.Property = "C19"
 		genC05(g, sc, tier)
